@@ -238,8 +238,7 @@ def make_globals(script, fault, supp, cmbase, log, limit=400):
     counts = {}
     import builtins
 
-    def hit(k):
-        log.append(k)
+    def hit(k, given=None, has_given=False):
         if len(log) > limit:
             raise Runaway()
         i = counts.get(k, 0) + 1
@@ -247,14 +246,19 @@ def make_globals(script, fault, supp, cmbase, log, limit=400):
         fl = fault.get(k, [0])
         ft = fl[i - 1] if i <= len(fl) else 0
         if ft:
+            log.append([k, V_NONE])
             cls = G.get(EXC[ft]) or getattr(builtins, EXC[ft])
             raise cls()
-        sc = script.get(k, [V_NONE])
-        return topy(sc[i - 1] if i <= len(sc) else sc[-1])
+        if has_given:
+            v = given
+        else:
+            sc = script.get(k, [V_NONE])
+            v = topy(sc[i - 1] if i <= len(sc) else sc[-1])
+        log.append([k, proj(v, G)])
+        return v
 
     def e(k, *a):
-        v = hit(k)
-        return a[0] if a else v
+        return hit(k, a[0], True) if a else hit(k)
 
     class CM:
         def __init__(self, k):
@@ -264,7 +268,7 @@ def make_globals(script, fault, supp, cmbase, log, limit=400):
             return hit(cmbase + 2 * self.k - 1)
 
         def __exit__(self, et, ev, tb):
-            hit(cmbase + 2 * self.k)
+            hit(cmbase + 2 * self.k, None, True)
             return bool(supp.get(self.k, 0)) and et is not None
 
     def cm(k):
